@@ -175,7 +175,7 @@ Proof.
   { destruct (global_in_range_lemma Qmult inp (Some lo) (Some hi) l (VNum g)) as [g' [E [R _]]]; auto.
     - intros a b Ea Eb. inversion Ea; inversion Eb; subst; exact Hr.
     - inversion E. subst. apply R. reflexivity. }
-  apply (local_in_band_lemma Qmult inp lo hi l g Hr H); unfold band_lo, band_hi; nra.
+  apply (local_in_band_lemma Qmult inp lo hi l g Hr H); unfold band_lo, band_hi; lra.
 Qed.
 
 (* ------------------------------------------------------------------ constants and access shapes *)
